@@ -55,8 +55,11 @@ void exportIspdNets(const Circuit &circuit, const std::string &filename) {
     for (int j = 0; j < circuit.nbPinsNet(i); ++j) {
       int c = circuit.pinCell(i, j);
       f << "\to" << c << " I : ";
-      double x = circuit.pinXOffset(i, j) - 0.5 * circuit.cellWidth_[c];
-      double y = circuit.pinYOffset(i, j) - 0.5 * circuit.cellHeight_[c];
+      // Offsets in the file are those of the unrotated cell, relative to its
+      // center: the orientation is applied again when reading the placement
+      int p = circuit.netLimits_[i] + j;
+      double x = circuit.pinXOffsets_[p] - 0.5 * circuit.cellWidth_[c];
+      double y = circuit.pinYOffsets_[p] - 0.5 * circuit.cellHeight_[c];
       f << x << " " << y << "\n";
     }
   }
